@@ -77,21 +77,20 @@ theorem HttpPeer.okB_sound {cfg : HttpCfg} {q : HttpPeer} (h : q.okB cfg = true)
     exact h6 x hx
 
 def plainLineB (l : Bytes) : Bool :=
-  !l.isEmpty && l.all (fun c => c != 13 && c != 34 && c != 40) && l.head? != some 32 && l.head? != some 9
+  !l.isEmpty && decide (Balanced l) && l.head? != some 32 && l.head? != some 9
 
 theorem plainLineB_sound {l : Bytes} (h : plainLineB l = true) : PlainLine l := by
-  simp only [plainLineB, Bool.and_eq_true, Bool.not_eq_true', List.all_eq_true, bne_iff_ne, ne_eq] at h
+  simp only [plainLineB, Bool.and_eq_true, Bool.not_eq_true', decide_eq_true_eq, bne_iff_ne, ne_eq] at h
   obtain ⟨⟨⟨h1, h2⟩, h3⟩, h4⟩ := h
-  refine ⟨?_, fun c hc => ?_, h3, h4⟩
-  · intro e; rw [e] at h1; simp at h1
-  · have := h2 c hc; exact ⟨this.1.1, this.1.2, this.2⟩
+  refine ⟨?_, h2, h3, h4⟩
+  intro e; rw [e] at h1; simp at h1
 
 def contPieceB (p : Bytes) : Bool :=
-  (p.head? == some 32 || p.head? == some 9) && p.all (fun c => c != 13 && c != 34 && c != 40)
+  (p.head? == some 32 || p.head? == some 9) && decide (Balanced p)
 
 theorem contPieceB_sound {p : Bytes} (h : contPieceB p = true) : ContPiece p := by
-  simp only [contPieceB, Bool.and_eq_true, Bool.or_eq_true, beq_iff_eq, List.all_eq_true, bne_iff_ne, ne_eq] at h
-  exact ⟨h.1, fun c hc => ⟨(h.2 c hc).1.1, (h.2 c hc).1.2, (h.2 c hc).2⟩⟩
+  simp only [contPieceB, Bool.and_eq_true, Bool.or_eq_true, beq_iff_eq, decide_eq_true_eq] at h
+  exact ⟨h.1, h.2⟩
 
 def wireB (q : HttpPeer) (ls : List FLine) : Bool :=
   ls.all (fun l => plainLineB l.head && l.tail.all contPieceB) &&
